@@ -6150,6 +6150,11 @@ write_function_instance(ostream &out, FunctionRemap *remap,
       CPPSimpleType *simple = nullptr;
       CPPType *unwrap = TypeManager::unwrap_const_reference(type);
       if (unwrap != nullptr) {
+        // The array or pointer may be named through a typedef
+        // (is_pointer_to_simple() looks through those, too).
+        while (unwrap->get_subtype() == CPPDeclaration::ST_typedef) {
+          unwrap = unwrap->as_typedef_type()->_type;
+        }
         CPPArrayType *array_type = unwrap->as_array_type();
         CPPPointerType *pointer_type = unwrap->as_pointer_type();
 
